@@ -189,13 +189,38 @@ class Scenario:
                         left['n'] -= 1
                         return _orig(syndrome, **kw)
                     dec.decode = interrupted_decode
+        tracer = None
+        if stop and stop[0] == 'ki_anywhere':
+            # Ctrl-C at an arbitrary point of the library's execution: at the
+            # k-th function entry inside panqec during this run
+            import sys
+            left = {'n': int(stop[1])}
+
+            def tracer(frame, event, arg):
+                if event == 'call' and '/panqec/' in frame.f_code.co_filename:
+                    if left['n'] == 0:
+                        left['n'] -= 1
+                        raise KeyboardInterrupt('injected at a function entry')
+                    left['n'] -= 1
+                return None
         outcome = 'ok'
         with runner.quiet():
             with fs:
                 try:
-                    batch.run(target)
+                    if tracer is not None:
+                        import sys
+                        sys.settrace(tracer)
+                    try:
+                        batch.run(target)
+                    finally:
+                        if tracer is not None:
+                            sys.settrace(None)
                 except SimulatedKill:
                     outcome = 'killed'
+                except KeyboardInterrupt:
+                    # the interrupt reached the caller (it landed outside the
+                    # part of run() that turns it into "paused"): a stop too
+                    outcome = 'ok'
                 except Exception as exc:    # noqa
                     import traceback
                     outcome = ('raised', f'{type(exc).__name__}: {exc}',
@@ -411,6 +436,15 @@ def history_case(case, fail):
         if stop is not None and scen.completed_saves >= 1 and \
                 any(s.results['n_runs'] < run['target'] for s in batch._simulations):
             nt = True
+        if stop is not None and run.get('resume_same_object') and out == 'ok':
+            try:
+                with runner.quiet():
+                    batch.run(run['target'])
+            except Exception as exc:      # noqa
+                fail('restart_completes', f'run {ri} ({run}) was paused and continued on the same '
+                     f'BatchSimulation object: {type(exc).__name__}: {exc}')
+                break
+            stop = None
         if stop is None:
             check_final(scen, batch, run['target'],
                         lambda r, d, _ri=ri: fail(r, f'after run {_ri} of {case["runs"][:_ri + 1]}: {d}'),
@@ -512,7 +546,8 @@ def histories(draw):
     for _ in range(draw(st.integers(1, 5))):
         target += draw(st.integers(0, 4))
         target = max(target, 1)
-        stop = draw(st.sampled_from([None, 'kill', 'kill', 'ki_save', 'ki_trial', 'ki_decode']))
+        stop = draw(st.sampled_from([None, 'kill', 'kill', 'ki_save', 'ki_trial', 'ki_decode',
+                                     'ki_anywhere']))
         run = {'target': target, 'sf': draw(st.integers(1, 4))}
         if stop == 'kill':
             run['stop'] = ['kill', draw(st.floats(0, 0.999)), draw(st.sampled_from(FRACS))]
@@ -522,6 +557,12 @@ def histories(draw):
             run['stop'] = ['ki_trial', draw(st.integers(0, 3)), draw(st.integers(0, target))]
         elif stop == 'ki_decode':
             run['stop'] = ['ki_decode', draw(st.integers(0, 12)), 0]
+        elif stop == 'ki_anywhere':
+            run['stop'] = ['ki_anywhere', draw(st.one_of(st.integers(0, 400), st.integers(0, 6000))), 0]
+        if stop in ('ki_trial', 'ki_decode', 'ki_anywhere', 'ki_save') and draw(st.booleans()):
+            # the paused run is continued the way the tutorial does it: run()
+            # again on the same BatchSimulation object
+            run['resume_same_object'] = True
         if draw(st.integers(0, 5)) == 0:
             grows = [['size', 3, 3], ['size', 2, 4], ['rate', 0.15], ['rate', 0.25],
                      ['rate', 0.1 + 0.2], ['rate', 0.3]]
@@ -576,9 +617,28 @@ def histories(draw):
     return case
 
 
+def interrupt_sweep(quick, seed):
+    """Ctrl-C at every k-th function entry of the first run of a fresh batch
+    (object construction is lazy: the first trial builds matrices, decoders,
+    probability tables), continued on the same object or by a new one."""
+    out = []
+    for dec_name, variants in sorted(DECODER_VARIANTS.items()):
+        spec = make_spec([(2, 2)], [(1 / 3, 1 / 3, 1 / 3)], [0.1], decoder=dec_name,
+                         dparams=variants[0])
+        for k in range(0, 700, 5 if quick else 1):
+            for same in (True, False):
+                run0 = {'target': 2, 'sf': 1, 'stop': ['ki_anywhere', k, 0]}
+                if same:
+                    run0['resume_same_object'] = True
+                out.append({'kind': 'history', 'fmt': 'json' if k % 2 else 'gz', 'spec0': spec,
+                            'runs': [run0, {'target': 3, 'sf': 1}], 'seed': seed + k})
+    return out
+
+
 def run(ctx):
     quick = ctx.tier == 'quick'
     ctx.exhaustive = True
     ctx.run_cases(enum_scenarios(quick, ctx.seed), chunk=1)
+    ctx.run_cases(interrupt_sweep(quick, ctx.seed), chunk=8)
     ctx.run_hypothesis('histories', 320 if quick else 5000)
     shutil.rmtree(runner.scratch_dir('c12'), ignore_errors=True)
